@@ -188,7 +188,14 @@ def check_case(ctx, case, runs):
             ctx.inconclusive_if(True, "%s %s: signal/timeout in harness run" % (cid, f))
             return
         if "Traceback (most recent call last)" in runs[f]["err"] and exits[f] != 2:
-            bad("traceback", "format %s printed a traceback (exit %s): %s" % (f, exits[f], runs[f]["err"][-200:]))
+            # a rule failure the orchestrator logged ("Rule <id> failed on <file>" + traceback on stderr) is C11's subject, not a broken rendering:
+            # every traceback must be such a log record, anything else is a crash
+            n_tb = runs[f]["err"].count("Traceback (most recent call last)")
+            n_logged = len(re.findall(r"^Rule \S+ failed on ", runs[f]["err"], re.M)) + len(re.findall(r"^Worker error processing file", runs[f]["err"], re.M))
+            if n_logged >= n_tb:
+                ctx.count("logged_rule_failures_on_stderr", n_tb)
+            else:
+                bad("traceback", "format %s printed a traceback (exit %s): %s" % (f, exits[f], runs[f]["err"][-200:]))
     if case["kind"] == "usage":
         ctx.count("usage_cases")
         ctx.nontrivial(["usage", cid])
